@@ -54,7 +54,14 @@ def mimic_function[**Args, Result](
             except AttributeError:
                 pass
         try:
-            target.__dict__.update(function.__dict__)
+            # never replace attributes of the target - wrappers keep their own state there
+            target.__dict__.update(
+                {
+                    key: value
+                    for key, value in function.__dict__.items()
+                    if key not in target.__dict__
+                }
+            )
 
         except AttributeError:
             pass
